@@ -17957,6 +17957,100 @@ pub(crate) fn hold_time_since(send_timestamp: Option<Duration>) -> Option<u32> {
 	})
 }
 
+#[cfg(feature = "verif_hooks")]
+impl<SP: SignerProvider> FundedChannel<SP> {
+	/// Canonical text of the hand-serialized, positional per-channel state (C12): one `chan` line (announced
+	/// `ChannelUpdateStatus`, announcement-sigs state, channel state flags, resend order, pending / holding-cell fee
+	/// update, HTLC id counters, monitor-pending flags) and one line per inbound HTLC, outbound HTLC and holding-cell
+	/// entry with its state variant. Read-only.
+	pub(crate) fn verif_positional_state_dump(&self) -> Vec<String> {
+		let id = self.context.channel_id;
+		let mut out = Vec::new();
+		let sigs = match self.context.announcement_sigs_state {
+			AnnouncementSigsState::NotSent => "NotSent",
+			AnnouncementSigsState::MessageSent => "MessageSent",
+			AnnouncementSigsState::Committed => "Committed",
+			AnnouncementSigsState::PeerReceived => "PeerReceived",
+		};
+		let resend = match self.context.resend_order {
+			RAACommitmentOrder::CommitmentFirst => "CommitmentFirst",
+			RAACommitmentOrder::RevokeAndACKFirst => "RevokeAndACKFirst",
+		};
+		out.push(format!(
+			"chan {} outbound={} update_status={:?} announcement_sigs={} state_bits={} resend_order={} pending_update_fee={:?} holding_cell_update_fee={:?} next_holder_htlc_id={} next_counterparty_htlc_id={} feerate={} monitor_pending=[{},{},{}] forwards={} failures={}",
+			id, self.funding.is_outbound(), self.context.channel_update_status, sigs,
+			self.context.channel_state.to_u32(), resend, self.context.pending_update_fee,
+			self.context.holding_cell_update_fee, self.context.next_holder_htlc_id,
+			self.context.next_counterparty_htlc_id, self.context.feerate_per_kw,
+			self.context.monitor_pending_channel_ready, self.context.monitor_pending_revoke_and_ack,
+			self.context.monitor_pending_commitment_signed, self.context.monitor_pending_forwards.len(),
+			self.context.monitor_pending_failures.len()
+		));
+		for h in self.context.pending_inbound_htlcs.iter() {
+			let st = match &h.state {
+				InboundHTLCState::RemoteAnnounced(_) => "RemoteAnnounced".to_string(),
+				InboundHTLCState::AwaitingRemoteRevokeToAnnounce(_) => {
+					"AwaitingRemoteRevokeToAnnounce".to_string()
+				},
+				InboundHTLCState::AwaitingAnnouncedRemoteRevoke(_) => {
+					"AwaitingAnnouncedRemoteRevoke".to_string()
+				},
+				InboundHTLCState::Committed { .. } => "Committed".to_string(),
+				InboundHTLCState::LocalRemoved(r) => format!(
+					"LocalRemoved:{}",
+					match r {
+						InboundHTLCRemovalReason::FailRelay(_) => "FailRelay",
+						InboundHTLCRemovalReason::FailMalformed { .. } => "FailMalformed",
+						InboundHTLCRemovalReason::Fulfill { .. } => "Fulfill",
+					}
+				),
+			};
+			out.push(format!(
+				"chan_in {} htlc_id={} amt={} cltv={} hash={} state={}",
+				id, h.htlc_id, h.amount_msat, h.cltv_expiry, h.payment_hash, st
+			));
+		}
+		for h in self.context.pending_outbound_htlcs.iter() {
+			let st = match &h.state {
+				OutboundHTLCState::LocalAnnounced(_) => "LocalAnnounced".to_string(),
+				OutboundHTLCState::Committed => "Committed".to_string(),
+				OutboundHTLCState::RemoteRemoved(_) => "RemoteRemoved".to_string(),
+				OutboundHTLCState::AwaitingRemoteRevokeToRemove(o) => format!(
+					"AwaitingRemoteRevokeToRemove:{}",
+					if matches!(o, OutboundHTLCOutcome::Success { .. }) { "Success" } else { "Failure" }
+				),
+				OutboundHTLCState::AwaitingRemovedRemoteRevoke(o) => format!(
+					"AwaitingRemovedRemoteRevoke:{}",
+					if matches!(o, OutboundHTLCOutcome::Success { .. }) { "Success" } else { "Failure" }
+				),
+			};
+			out.push(format!(
+				"chan_out {} htlc_id={} amt={} cltv={} hash={} state={} skimmed={:?}",
+				id, h.htlc_id, h.amount_msat, h.cltv_expiry, h.payment_hash, st, h.skimmed_fee_msat
+			));
+		}
+		for (k, u) in self.context.holding_cell_htlc_updates.iter().enumerate() {
+			let t = match u {
+				HTLCUpdateAwaitingACK::AddHTLC { amount_msat, cltv_expiry, payment_hash, skimmed_fee_msat, .. } => format!(
+					"AddHTLC amt={} cltv={} hash={} skimmed={:?}",
+					amount_msat, cltv_expiry, payment_hash, skimmed_fee_msat
+				),
+				HTLCUpdateAwaitingACK::ClaimHTLC { htlc_id, payment_preimage, .. } => {
+					format!("ClaimHTLC htlc_id={} preimage={}", htlc_id, payment_preimage)
+				},
+				HTLCUpdateAwaitingACK::FailHTLC { htlc_id, err_packet } => {
+					format!("FailHTLC htlc_id={} data_len={}", htlc_id, err_packet.data.len())
+				},
+				HTLCUpdateAwaitingACK::FailMalformedHTLC { htlc_id, failure_code, .. } => {
+					format!("FailMalformedHTLC htlc_id={} code={}", htlc_id, failure_code)
+				},
+			};
+			out.push(format!("chan_hold {} #{} {}", id, k, t));
+		}
+		out
+	}
+}
+
 #[cfg(test)]
 mod tests {
 	use crate::chain::chaininterface::LowerBoundedFeeEstimator;
